@@ -150,7 +150,7 @@ class ICE(MechatronicsInterface):
         updated_vehicle = vehicle.modify_energy(
             immutables.Map({EnergyType.GASOLINE: new_energy_gal_gas})
         )
-        updated_vehicle = vehicle.tick_energy_expended(
+        updated_vehicle = updated_vehicle.tick_energy_expended(
             immutables.Map({EnergyType.GASOLINE: vehicle_energy_gal_gas - new_energy_gal_gas})
         )
         return updated_vehicle
@@ -171,7 +171,7 @@ class ICE(MechatronicsInterface):
         updated_vehicle = vehicle.modify_energy(
             immutables.Map({EnergyType.GASOLINE: new_energy_gal_gas})
         )
-        updated_vehicle = vehicle.tick_energy_expended(
+        updated_vehicle = updated_vehicle.tick_energy_expended(
             immutables.Map({EnergyType.GASOLINE: vehicle_energy_gal_gas - new_energy_gal_gas})
         )
 
